@@ -166,12 +166,24 @@ Section Node.
     negb ((t_ty t =? TFee) || (t_ty t =? TSPV)).
   Definition user_tx (t : tx) : bool :=
     utxo_checked t && negb (t_ty t =? TATR) && negb (t_ty t =? TIssuance).
-  Definition tx_valid (u : list slip) (t : tx) : bool :=
-    (Nlen (t_from t) <=? 255) && (Nlen (t_to t) <=? 255) &&
-    t_ok t &&
+  (* the age test of Transaction::validate (fixes bb88717, 8712765), user-originated transactions only:
+       self.from.iter().any(|slip| slip.amount > 0 && slip.slip_type != Bound
+                 && slip.block_id.saturating_add(blockchain.genesis_period) < latest_block_id + 1)
+     [next] = latest_block_id + 1 *)
+  Definition aged (s : slip) : bool := (0 <? s_amt s) && negb (is_bound s).
+  Definition too_old (next : N) (t : tx) : bool :=
+    existsb (fun s => aged s && (sadd (s_bid s) (cf_gp cf) <? next)) (t_from t).
+
+  (* Transaction::validate(utxoset, blockchain, true): [t_ok] is the oracle for everything that
+     needs neither the ledger nor the chain height *)
+  Definition tx_static (t : tx) : bool :=
+    (Nlen (t_from t) <=? 255) && (Nlen (t_to t) <=? 255) && t_ok t.
+  Definition tx_ledger (u : list slip) (t : tx) : bool :=
     (negb (user_tx t) || (total_out t <=? total_in t)) &&
     (negb (utxo_checked t) ||
      (match t_to t with [] => false | _ => true end && forallb (slip_valid u) (t_from t))).
+  Definition tx_valid (u : list slip) (next : N) (t : tx) : bool :=
+    tx_static t && negb (user_tx t && too_old next t) && tx_ledger u t.
 
   (* the final sweep: all valid, no value input (Bound excepted) twice, fee transactions skipped *)
   Definition valuable (s : slip) : bool := negb (s_amt s =? 0) && negb (is_bound s).
@@ -180,16 +192,23 @@ Section Node.
     | [] => Some seen
     | k :: r => if existsb (slip_eqb k) seen then None else add_keys (k :: seen) r
     end.
-  Fixpoint vsweep (u : list slip) (seen : list slip) (l : list tx) : bool :=
+  Fixpoint vsweep (u : list slip) (next : N) (seen : list slip) (l : list tx) : bool :=
     match l with
     | [] => true
     | t :: r =>
-        if negb (tx_valid u t) then false
-        else if t_ty t =? TFee then vsweep u seen r
+        if negb (tx_valid u next t) then false
+        else if t_ty t =? TFee then vsweep u next seen r
         else match add_keys seen (filter valuable (t_from t)) with
-             | Some seen' => vsweep u seen' r
+             | Some seen' => vsweep u next seen' r
              | None => false
              end
+    end.
+
+  (* the inputs of the carried rebroadcasts against the expected ones (fix f640126): zip *)
+  Fixpoint same_inputs (carried expected : list tx) : bool :=
+    match carried, expected with
+    | t :: r, e :: r' => eqb_list slip_eqb (t_from t) (t_from e) && same_inputs r r'
+    | _, _ => true
     end.
 
   (* ---------- Block::validate (validate_against_utxo = true) ---------- *)
@@ -230,6 +249,9 @@ Section Node.
       | None => Ok true
       | Some pb =>
           let p := b_hdr pb in
+          (* block ids are consecutive (fix 6b3137c) *)
+          do nid <- add md 2114 (h_id p) 1;
+          if negb (h_id h =? nid) then Ok false else
           do t1 <- add md 2111 (h_treasury p) (c_pay_treasury c);
           do et <- sub md 2112 t1 (c_pay_atr c);
           if negb (h_treasury h =? et) then Ok false else
@@ -239,6 +261,8 @@ Section Node.
           match c_gt_index c with
           | Some _ =>
               if negb (h_unpaid h =? 0) then Ok false else
+              (* a golden ticket naming the all-zero key is invalid (fix b8552b5) *)
+              if o_miner (b_orc b) =? 0 then Ok false else
               if negb (b_gt_ok b) then Ok false else Ok true
           | None =>
               if negb (h_unpaid h =? h_total_fees p) then Ok false else Ok true
@@ -247,9 +271,12 @@ Section Node.
     if negb prev_ok then Ok false else
     if negb (c_rb_slips c =? block_rb_slips (b_txs b)) then Ok false else
     if negb (eqb_list sig_eqb (c_rb_hash c) (block_atrs (b_txs b))) then Ok false else
+    if negb (same_inputs (block_atrs (b_txs b)) (c_rebroadcasts c)) then Ok false else
     if negb (b_merkle_ok b) then Ok false else
     if 1 <? c_ft_num c then Ok false else
     if (0 <? c_ft_num c) && match c_fee_tx c with None => true | Some _ => false end then Ok false else
+    (* a block with a golden ticket must carry its fee transaction (fix 60ba6d1) *)
+    if (c_ft_num c =? 0) && match c_fee_tx c with None => false | Some _ => true end then Ok false else
     let fee_ok :=
       match c_ft_index c, c_fee_tx c with
       | Some fi, Some expected =>
@@ -260,7 +287,7 @@ Section Node.
       | _, _ => true
       end in
     if negb fee_ok then Ok false else
-    Ok (vsweep (st_utxo st) [] (b_txs b)).
+    Ok (vsweep (st_utxo st) (tip_id st + 1) [] (b_txs b)).
   Definition validate_m (md : amode) (st : state) (b : block) : res bool :=
     if no_tx_reject st b then Ok false else validate_body md st b.
   Definition validate := validate_m mode.
